@@ -37,6 +37,8 @@ def declare(rep):
     rep.rule("C06.inclusive-registration", "a face is registered in every voxel from its start to its stop index inclusive, in x, y and z", floor=3)
     rep.rule("C06.grid-extent", "the grid is re-dimensioned with the global min / max of the padded boxes in axis order, before registration", floor=1)
     rep.rule("C06.grid-reset", "re-dimensioning the face grid discards the faces registered in the previous iteration (no pair is presented twice, no stale face pointer)", floor=1)
+    rep.rule("C06.box-precision", "the padded boxes are computed, stored and compared in double precision: a box rounded to float can shrink by more than the padding for tissues far from the origin", floor=7)
+    rep.rule("C06.registration-serial", "faces are registered in the grid by one thread at a time (forward_list::push_front on a shared voxel is not thread safe: a face is silently lost)", floor=1)
     rep.rule("C06.lookup-pipeline", "look-up: own voxel -> different cell -> aabb check (box of that face) -> narrow phase; order of run(): boxes, grid, look-up", floor=2)
 
 
@@ -49,6 +51,8 @@ def run(rep, prog, tier):
     face_index(rep, prog, cm)
     quantisation(rep, prog, cm)
     registration(rep, prog)
+    box_precision(rep, prog)
+    registration_serial(rep, prog)
     grid_extent(rep, prog)
     pipeline(rep, prog, cm)
     for f in c20.grid_fns(prog):
@@ -381,3 +385,53 @@ def pipeline(rep, prog, cm):
     else:
         rep.violation("C06.lookup-pipeline", prog, lk, n, "look-up applies an extra filter or the wrong box: %s" % (",".join(extra) or "box index"),
                       "%s: the pair is handed to the narrow phase only under additional condition(s) %s%s: pairs within the cut-off can be discarded before the distance test" % (lk["qn"], extra, "" if box_ok else "; the aabb check is not given f->global_face_id_*6"))
+
+
+def box_precision(rep, prog):
+    rule = "C06.box-precision"
+    rec = prog.records.get("contact_model_abstract")
+    fld = [f for f in (rec or {}).get("fields", []) if f.get("name") == "face_aabb_lst_"]
+    if not fld:
+        raise AnalysisBroken("contact_model_abstract::face_aabb_lst_ not found")
+    t = fld[0].get("t", "")
+    fn0 = prog.fn("contact_model_abstract::update_face_aabbs")
+    if "double" in t and "float" not in t:
+        rep.ok(rule, prog, fn0, None, "face_aabb_lst_ is %s" % t)
+    else:
+        rep.violation(rule, prog, fn0, None, "face boxes stored as %s" % t,
+                      "contact_model_abstract::face_aabb_lst_ has type %s: rounding a padded bound to single precision moves it by up to half a float ulp of the coordinate (about 6e-8 x |coordinate|); for a tissue placed far "
+                      "from the origin that exceeds the padding margin and a node within the cut-off fails aabb_intersection_check" % t)
+    for qn in ("contact_model_abstract::update_face_aabbs", "contact_model_abstract::aabb_intersection_check", "contact_model_abstract::store_face_in_uspg"):
+        fn = prog.fn(qn)
+        for n in walk(fn["body"]):
+            if n.get("k") == "Var" and isinstance(n.get("init"), dict) and re.search(r"\b(float|double)\b", n.get("t", "")) and "<" not in n.get("t", ""):
+                if "float" in n["t"]:
+                    rep.violation(rule, prog, fn, n, "%s is a float" % n.get("name"), "%s: '%s' holds a box coordinate in single precision (%s)" % (qn, n.get("name"), short(n, 80)))
+                else:
+                    rep.ok(rule, prog, fn, n, "%s is %s" % (n.get("name"), n["t"]))
+            if n.get("k") in ("ImplicitCastExpr", "CXXStaticCastExpr", "CStyleCastExpr") and n.get("ck") == "FloatingCast" and n.get("t", "").replace("const ", "") == "float":
+                rep.violation(rule, prog, fn, n, "coordinate narrowed to float", "%s: %s converts a coordinate to float" % (qn, short(n, 80)))
+
+
+def registration_serial(rep, prog):
+    rule = "C06.registration-serial"
+    fn = prog.fn("contact_model_abstract::store_face_in_uspg")
+    fi = prog.index(fn)
+    place = [n for n in walk(fn["body"]) if n.get("k") == "CXXMemberCallExpr" and n.get("callee", "").endswith("::place_object")]
+    if not place:
+        raise AnalysisBroken("store_face_in_uspg: place_object call not found")
+    for pl in place:
+        par = None
+        for p, slot, ch in fi.ancestors(pl):
+            o = p.get("omp")
+            if o and ("critical" in o or "single" in o or "master" in o):
+                break
+            if o and "parallel" in o:
+                par = p
+                break
+        if par is None:
+            rep.ok(rule, prog, fn, pl, "place_object is not executed inside a parallel region")
+        else:
+            rep.violation(rule, prog, fn, pl, "faces registered concurrently",
+                          "%s runs inside the '#pragma omp %s' region of line %s without a critical section: two threads pushing a face on the forward_list of the same voxel lose one of them, "
+                          "so the nodes of that voxel are never presented that face in this iteration" % (short(pl, 60), par.get("omp"), par.get("l")))
